@@ -330,6 +330,19 @@ func ZZ_C16_deposits() {
 	zzFixedAsset = &common.BitcoinAssetId
 	e := zzFinSetup([]int{1, 1}, false)
 	s := e.s
+	if vr.Bool() {
+		// the asset key of the second deposit differs from the registered one in letter case only
+		// (validation and finalization must agree on whether that is the same asset)
+		e.txs[1].ver.Inputs[0].Deposit.AssetKey = "0xKEY"
+		e.txs[1].hash = e.txs[1].ver.PayloadHash()
+		zzSet(s, graphTransactionKey(e.txs[1].hash), e.txs[1].ver.Marshal())
+		e.snap.Transactions[1] = e.txs[1].hash
+		if bytes.Compare(e.snap.Transactions[0][:], e.snap.Transactions[1][:]) > 0 {
+			e.snap.Transactions[0], e.snap.Transactions[1] = e.snap.Transactions[1], e.snap.Transactions[0]
+		}
+		vr.Assume(e.snap.Transactions[0] != e.snap.Transactions[1])
+		vr.Cover("asset-key-case-variant")
+	}
 	for _, ft := range e.txs {
 		verr := common.ZZVerifyDepositData(&ft.ver.Transaction, s)
 		if verr != nil && vr.Replaying() {
